@@ -155,9 +155,14 @@ def check_local(local, points, weights, center, radius, bad, tag):
 
 
 class World:
-    def __init__(self, seed, kind="grid3d"):
+    def __init__(self, seed, kind="grid3d", small=False):
         self.seed = seed
         self.kind = kind
+        # small=True: two centres x two radii only, plus the event EL "the caller edits the local grid it was
+        # handed last, in place" (added after seeded change C11-D: returned local grids memoised per query)
+        self.small = small
+        self.last = None       # (ci, ri, local grid) of the latest query
+        self.edited = False
         self.violations = []
         self.pv = self.wv = 0
         try:
@@ -192,6 +197,11 @@ class World:
     def enabled(self):
         if self.grid is None:
             return []
+        if self.small:
+            evs = [("Q", ci, ri) for ci in (0, 3) for ri in (2, 3)] + [("SW", 1), ("SP", 1)]
+            if self.last is not None and not self.edited:
+                evs.append(("EL",))
+            return evs
         evs = [("Q", ci, ri) for ci in range(len(self.centres)) for ri in range(len(RADII))
                # radius=inf on a PeriodicGrid is the "behaves as the plain grid" clause of C11
                # (checked and reported there), not part of C10's list of grid kinds
@@ -218,10 +228,23 @@ class World:
                               f"{type(exc).__name__}: {exc}")
                     return ("exc", type(exc).__name__)
                 self.ties += check_local(loc, self.P[self.pv], self.W[self.wv], c, r, self._bad, tag)
+                self.last, self.edited = (ev[1], ev[2], loc), False
                 # the grid itself must be untouched by a query
                 if not (np.array_equal(g.points, self.P[self.pv]) and np.array_equal(g.weights, self.W[self.wv])):
                     self._bad("Q:grid-modified", "a query changed the grid's points or weights")
                 return ("Q", len(loc.indices), explore._digest(np.sort(np.asarray(loc.indices)).tolist()))
+            if ev[0] == "EL":
+                loc = self.last[2]
+                try:
+                    np.asarray(loc.weights)[...] *= 3.0
+                    np.asarray(loc.points)[...] += 0.7
+                    np.asarray(loc.indices)[...] = 0
+                except ValueError:
+                    pass      # read-only arrays are a legitimate way to protect them
+                self.edited = True
+                if not (np.array_equal(g.points, self.P[self.pv]) and np.array_equal(g.weights, self.W[self.wv])):
+                    self._bad("EL:parent-changed", "editing a local grid in place changed the parent grid's points or weights")
+                return ("EL",)
             kind, k = ev
             if kind == "SEL":
                 n = len(self.P[self.pv])
@@ -272,6 +295,10 @@ class World:
             for k, p in enumerate(self.P):
                 if data.shape == p.reshape(len(p), -1).shape and np.array_equal(data, p.reshape(len(p), -1)):
                     tv = k
+        if self.small:
+            # a memo of handed-out local grids is hidden state: which query was answered last, and whether its answer
+            # was edited, decide what such a memo would return
+            return (self.kind, self.pv, self.wv, tv, None if self.last is None else self.last[:2], self.edited)
         return (self.kind, self.pv, self.wv, tv, self.nsel, len(self.P[0]))
 
 
@@ -377,6 +404,9 @@ def run(ctx):
         explore.explore(ctx, "vf.props.c10:World", depth, params={"kind": kind},
                         twice_every=4, fresh_every=9 if kind in ("grid3d", "atom") else 0,
                         section=f"history:{kind}")
+    for kind in KINDS:
+        explore.explore(ctx, "vf.props.c10:World", depth, params={"kind": kind, "small": True},
+                        twice_every=7, fresh_every=0, section=f"history-edit-local:{kind}")
     ctx.guarded("selection", run_selection, ctx)
     ctx.cov["radii"] = [repr(r) for r in RADII]
     ctx.cov["depth_bound"] = depth
